@@ -20,7 +20,7 @@ Definition raw_ok (t : token) (raw rest : str) : Prop :=
   | KComment | KEOLComment =>
       has_prefix raw [47; 47] = true /\ has_prefix (t_text t) [47; 47] = true /\
       ((exists m, raw = m ++ [10]) \/ rest = [])
-  | KEOF => raw = [] /\ rest = []
+  | KEOF => raw = [] /\ rest = [] /\ t_text t = []
   | KPunct c => raw = [c] /\ t_text t = [c]
   | KIdent => raw = t_text t /\ ident_stop rest
   | KString => raw = t_text t /\ exists q r, raw = q :: r /\ (q = 34 \/ q = 96)
